@@ -1,1 +1,3 @@
-pub fn placeholder() {}
+//! Reference models that are independent of ts-rs.
+pub mod combine;
+pub mod paths;
